@@ -10,7 +10,7 @@ from ..harness import World, execute, place_summary, probe, violation
 
 LEVEL = "exploration"
 PLAN = {
-    "quick": {"mem": 1500, "redis": 500},
+    "quick": {"mem": 3000, "redis": 1000},
     "thorough": {"mem": 120000, "redis": 30000},
 }
 BUDGET = {"quick": 50, "thorough": 900}
